@@ -42,7 +42,7 @@ func InflateGraph(t *rapid.T, m *Model) string {
 	dim := rapid.SampledFrom([]string{"types", "operands", "ttu-fanout", "restrictions", "wildcards", "parents", "chain", "conditions", "relations"}).Draw(t, "scaleDim")
 	n := rapid.SampledFrom(ScaleCounts).Draw(t, "scaleN")
 	if dim != "parents" && dim != "chain" && rapid.IntRange(0, 5).Draw(t, "scaleLarge") == 0 {
-		n = rapid.SampledFrom([]int{63, 64, 65, 66, 100, 127, 128, 129}).Draw(t, "scaleNLarge") // the next two thresholds
+		n = rapid.SampledFrom([]int{63, 64, 65, 66, 100, 127, 128, 129, 255, 256, 257, 300}).Draw(t, "scaleNLarge") // the next thresholds, up to one past a byte
 	}
 	ti := obj[rapid.IntRange(0, len(obj)-1).Draw(t, "scaleType")]
 	td := &m.Types[ti]
@@ -317,11 +317,11 @@ func ensureConds(m *Model) {
 //	expr         a condition body of N clauses (well over 64 tokens), sometimes with a lone '{' in the middle
 //	name-length  one type and one relation get names of 50..255 characters
 func InflateDSL(t *rapid.T, m *Model, jsonOnly bool) string {
-	dims := []string{"operands", "depth", "relations", "types", "restrictions", "conditions", "params", "expr", "name-length"}
+	dims := []string{"operands", "depth", "relations", "types", "restrictions", "conditions", "params", "expr", "name-length", "lines"}
 	dim := rapid.SampledFrom(dims).Draw(t, "scaleDim")
 	n := rapid.SampledFrom(ScaleCounts).Draw(t, "scaleN")
-	if dim != "depth" && dim != "name-length" && rapid.IntRange(0, 5).Draw(t, "scaleLarge") == 0 {
-		n = rapid.SampledFrom([]int{63, 64, 65, 66, 100, 127, 128, 129}).Draw(t, "scaleNLarge") // the next two thresholds
+	if dim != "depth" && dim != "name-length" && dim != "lines" && rapid.IntRange(0, 5).Draw(t, "scaleLarge") == 0 {
+		n = rapid.SampledFrom([]int{63, 64, 65, 66, 100, 127, 128, 129, 255, 256, 257, 300}).Draw(t, "scaleNLarge") // the next thresholds, up to one past a byte
 	}
 	usedT := map[string]bool{}
 	for _, x := range m.Types {
@@ -512,8 +512,17 @@ func InflateDSL(t *rapid.T, m *Model, jsonOnly bool) string {
 			}
 		}
 		c.Expr = string(b)
+	case "lines":
+		// many blank lines in front of one type: line numbers beyond 255 and 511 (one past a byte). Not more: the library
+		// needs time quadratic in the length of a run of blank lines (1 024 lines: 0.16 s, 4 096: 2.1 s, 16 384: 32 s) -
+		// inside the bound C08 states, but too slow to draw thousands of times. The renderer writes the run only into files
+		// with plain LF line ends: runs of CR LF are recorded finding T5.
+		m.PadLines = rapid.SampledFrom([]int{255, 256, 257, 300, 511, 512, 513}).Draw(t, "scalePadLines")
+		if len(m.Types) > 0 {
+			m.PadBefore = rapid.IntRange(0, len(m.Types)-1).Draw(t, "scalePadBefore")
+		}
 	case "name-length":
-		ln := rapid.SampledFrom([]int{50, 51, 63, 64, 65, 127, 128, 129, 254, 255, 256}).Draw(t, "scaleNameLen")
+		ln := rapid.SampledFrom([]int{50, 51, 63, 64, 65, 127, 128, 129, 254, 255, 256, 257, 1023, 1024, 1025, 4096, 4097}).Draw(t, "scaleNameLen")
 		td, r := pickRel()
 		long := func(first byte) string {
 			b := make([]byte, ln)
